@@ -45,6 +45,7 @@ def run(ctx):
     null_text(ctx, lexpr)
     nil_as_false(ctx, lexpr)
     bytes_elisp(ctx, lexpr)
+    bytes_notation(ctx, lexpr)
     rescan(ctx, lexpr)
     # a symbol is printed verbatim: it must come back as that symbol unless it is exactly the `nil` / `t` the options
     # give a meaning to, or carries the postfix-keyword colon (decision table shared with C08)
@@ -177,6 +178,79 @@ def bytes_elisp(ctx, lexpr):
             r.violation(dec.path, "bytes-decode:0x%02X" % b,
                         "the octal escape %s written for byte 0x%02X is decoded as %s" % (body.decode(), b, sorted(vals, key=repr)), dec.loc())
     r.floor("bytes", n)
+
+
+def bytes_notation(ctx, lexpr):
+    """A byte vector has its own notation, chosen by the bytes syntax alone: `#vu8(..)` (R6RS), `#u8(..)` (R7RS) or
+    an Emacs Lisp unibyte string - whatever notation generic vectors use.  Printed as `[1 2 3]` (the bracket
+    notation of generic vectors) it would read back as a vector of numbers.  CustomizedFormatter::write_bytes is
+    evaluated on a one-element byte vector under every combination of the two options."""
+    from .. import lex, sim
+    from ..sim import Adt, Bytes, Ref, Opq
+    r = ctx.rule("R-BYTES-NOTATION", "under every combination of vector syntax and bytes syntax a byte vector is written in "
+                                     "the notation its bytes syntax documents (`#vu8(`..`)`, `#u8(`..`)`, `\"..\"`)")
+    wf = lexpr.fn("<print::CustomizedFormatter as print::Formatter>::write_bytes")
+    opts = lexpr.adts.get("print::Options")
+    if wf is None or not opts:
+        r.anchor_missing("CustomizedFormatter::write_bytes / print::Options")
+        return
+    ofields = opts["variants"][0]["fields"]
+    byf = [f["name"] for f in ofields if f["ty"] == "print::BytesSyntax"]
+    vef = [f["name"] for f in ofields if f["ty"] == "print::VectorSyntax"]
+    bs, vs = lexpr.adts.get("print::BytesSyntax"), lexpr.adts.get("print::VectorSyntax")
+    if len(byf) != 1 or len(vef) != 1 or not bs or not vs:
+        r.anchor_missing("Options fields of type BytesSyntax / VectorSyntax")
+        return
+    want = {"R6RS": (b"#vu8(", b")"), "R7RS": (b"#u8(", b")"), "Elisp": (b'"', b'"')}
+    n = 0
+    for bv in bs["variants"]:
+        for vv in vs["variants"]:
+            if bv["name"] not in want:
+                r.violation(wf.path, "bytes-syntax:%s" % bv["name"], "BytesSyntax::%s has no documented notation recorded" % bv["name"], wf.loc())
+                continue
+            vals = {byf[0]: Adt("print::BytesSyntax", bv["idx"], [], bv["name"]),
+                    vef[0]: Adt("print::VectorSyntax", vv["idx"], [], vv["name"])}
+
+            def opaque(o, vals=vals):
+                if "options" in o.path:
+                    for k, v in vals.items():
+                        if k in o.path:
+                            return v
+                return None
+
+            def hook(S, fn, bb, t, args, path):
+                nm = F.callee_names(t)
+                if "std::io::Write::write_all" in nm:
+                    return ("value", Adt("std::result::Result", 0, [sim.Tup([])]))
+                if any(x.startswith("itoa::Buffer::format") for x in nm) or t["callee"].get("path", "").startswith("itoa::Buffer::format"):
+                    return ("value", Opq("digits"))
+                return None
+
+            S = sim.Sim([lexpr], hooks={"opaque": opaque, "call": hook}, inline=lex.print_inline(lexpr), max_visits=8, max_paths=2000)
+            texts = set()
+            try:
+                for p in S.run(wf, args={3: Ref([Bytes([7])], 0, ())}):
+                    if p.end == "panic":
+                        texts.add(("panic", None))
+                        continue
+                    if p.end != "return":
+                        continue
+                    parts = [bytes(e[6][1].b) if isinstance(e[6][1], Bytes) else None for e in p.calls("std::io::Write::write_all")]
+                    first = parts[0] if parts else None
+                    last = parts[-1] if parts else None
+                    texts.add((first, last))
+            except sim.Limit:
+                texts = {("?", None)}
+            n += 1
+            desc = "BytesSyntax::%s with VectorSyntax::%s" % (bv["name"], vv["name"])
+            if texts == {want[bv["name"]]}:
+                r.ok("%s: a byte vector is written as %s..%s" % (desc, want[bv["name"]][0].decode(), want[bv["name"]][1].decode()), wf)
+            else:
+                r.violation(wf.path, "bytes-notation:%s:%s" % (bv["name"], vv["name"]),
+                            "%s: a byte vector is written as %s, the documented notation is %s..%s: it reads back as something "
+                            "else than a byte vector" % (desc, sorted(texts, key=repr), want[bv["name"]][0].decode(),
+                                                         want[bv["name"]][1].decode()), wf.loc())
+    r.floor("option-combinations", n)
 
 
 def nil_as_false(ctx, lexpr):
